@@ -8,6 +8,11 @@
    traces row vs the source window on the neighbour channels, channel map, templates, loader) are validated by
    spec/trace/WaveformTrace.tla.
 3. the same input extracted with different chunk sizes / worker counts must give identical files.
+4. the state a call can find: output folders that already hold the four files of an earlier extraction (larger, legacy
+   4-D, shorter, cut off), argument arrays reused by later calls / read-only / strided, unit ids that are negative, large
+   or in no order, units without any extractable spike, max_wf beyond every unit (and the defaults of every keyword).
+5. direct extract_wfs_array calls (the gather itself): other trough offsets / lengths / neighbourhood radii, with and
+   without the NaN row, other array types; the loader with every option of load_waveforms.
 """
 import copy
 import hashlib
@@ -34,7 +39,25 @@ def make_rec(ctx, kind, ns, rng, tag):
     return b, d
 
 
-def make_train(ns, chunk_sizes, rng, nunits, maxwf, nspk, variant=None):
+# unit labels are arbitrary integers: negative (sorters mark unassigned spikes with -1), beyond 16 / 31 bits, in no order
+# (keys: the unit numbers make_train uses; values stay within 32 bits for TLC)
+IDMAPS = [None,
+          {1: 12, 3: -7, 5: 40000, 7: -1, 8: 5, 9: 70001, 11: -300, 13: 2},
+          {1: 65536, 3: 2147483000, 5: 65535, 7: 100000, 8: 70000, 9: 32768, 11: 1000000, 13: 32767}]
+EMPTY_UNIT = 8      # a unit none of whose spikes can be extracted (all within the margins): quota 0, between the others
+
+
+def build_train(sc):
+    """the spike train of a scenario (run and replay)"""
+    t = make_train(sc["ns"], [500, 777, 1000, 3000, 6500, 10000], np.random.default_rng(sc["seed"]), sc["nunits"],
+                   sc.get("train_maxwf", sc["maxwf"]), sc["nspk"], variant=sc["seed"] % 2, empty=sc.get("empty", False))
+    m = IDMAPS[sc.get("ids", 0)]
+    if m:
+        t = [(a, m[u], c) for a, u, c in t]
+    return t
+
+
+def make_train(ns, chunk_sizes, rng, nunits, maxwf, nspk, variant=None, empty=False):
     """sorted spike train with the awkward cases: both file edges, chunk boundaries, duplicates across units, unit sizes
     below / at / above max_wf, peak channels at the probe ends"""
     lim = ns - (LEN - TROUGH)
@@ -74,6 +97,10 @@ def make_train(ns, chunk_sizes, rng, nunits, maxwf, nspk, variant=None):
         spikes = [s for s in spikes if s[1] != 1]
         spikes += [(0, 1, 100), (TROUGH - 1, 1, 383), (TROUGH, 1, 200), (TROUGH + 5, 1, 10), (lim - 7, 1, 300), (lim, 1, 0)]
         spikes = sorted(set(spikes), key=lambda x: (x[0], x[1]))
+    if empty:
+        early = [] if spikes[0][0] > TROUGH else [(1, EMPTY_UNIT, 50), (TROUGH, EMPTY_UNIT, 383)]   # spike 0 stays what it was
+        spikes = sorted(set(spikes + early + [(lim, EMPTY_UNIT, 60), (lim + 3, EMPTY_UNIT, 0), (ns - 1, EMPTY_UNIT, 191)]),
+                        key=lambda x: (x[0], x[1]))
     seen, out = set(), []
     for s in spikes:
         if (s[0], s[1]) not in seen:
@@ -86,7 +113,143 @@ def sha(p):
     return hashlib.sha1(Path(p).read_bytes()).hexdigest()
 
 
-def one_extract(ctx, binf, d, train, sc, idx):
+FILES = ("waveforms.traces.npy", "waveforms.table.pqt", "waveforms.channels.npz", "waveforms.templates.npy")
+
+
+def plant_leftovers(out, mode, rng):
+    """what an earlier extraction into the same folder left under the four names: 1 a larger one, 2 a larger one in the
+    legacy 4-D layout (plus a file of somebody else), 3 a shorter one, 4 one that was cut off while writing"""
+    import pandas as pd
+
+    def table(n):
+        return pd.DataFrame({"index": np.arange(n), "sample": np.sort(rng.integers(50, 5000, n)), "cluster": np.sort(rng.integers(0, 9, n)),
+                             "peak_channel": rng.integers(0, 384, n), "waveform_index": np.arange(n),
+                             "index_within_clusters": np.arange(n)})
+    if mode in (1, 3):
+        n, nu = (700, 60) if mode == 1 else (2, 1)
+        np.save(out / FILES[0], rng.standard_normal((n, 40, LEN)).astype(np.float32))
+        table(n).to_parquet(out / FILES[1])
+        np.savez(out / FILES[2], channels=rng.integers(0, 385, (n, 40)))
+        np.save(out / FILES[3], rng.standard_normal((nu, 40, LEN)).astype(np.float32))
+    elif mode == 2:
+        np.save(out / FILES[0], rng.standard_normal((20, 16, 40, LEN)).astype(np.float32))
+        table(320).to_parquet(out / FILES[1])
+        np.savez(out / FILES[2], channels=rng.integers(0, 385, (320, 40)).astype(float))
+        np.save(out / FILES[3], rng.standard_normal((20, 40, LEN)).astype(np.float32))
+        (out / "notes.txt").write_text("not ours")
+    elif mode == 4:
+        np.save(out / FILES[0], rng.standard_normal((300, 40, LEN)).astype(np.float32))
+        with open(out / FILES[0], "r+b") as f:
+            f.truncate(128 + 4 * 40 * LEN * 17 + 33)
+        (out / FILES[1]).write_bytes(b"PAR1" + bytes(rng.integers(0, 256, 900, dtype=np.uint8)))
+        np.save(out / FILES[3], rng.standard_normal((3, 40, LEN)).astype(np.float32))
+
+
+# the integer types spike sorters hand over (kilosort writes uint64 spike times, uint32 clusters); the result must not
+# depend on them (the runs of a group differ in it as they differ in chunk size and worker count)
+DTS = [(np.int64, np.int64, np.int64), (np.uint64, np.uint32, np.int64), (np.int32, np.int32, np.int32),
+       (np.uint32, np.int64, np.uint16), (np.uint64, np.int64, np.int64)]
+
+
+def arguments(train, sc, idx, master):
+    """the three spike arrays of a run.  `master` (one per train) holds int64 arrays that every run of the train whose
+    type is int64 receives *as they are* (a call that changed its caller's arrays would hand a different train to the
+    later runs); the other runs get read-only copies, every third one a strided view."""
+    k, g = sc.get("k", idx), sc.get("g", 0)
+    dts = (DTS[0] if k in (0, 2) else DTS[1 + (g + k) % 4]) if "k" in sc else DTS[idx % 5]
+    if min(t[1] for t in train) < 0 and dts[1] is np.uint32:
+        dts = (dts[0], np.int32, dts[2])
+    if "a" not in master:
+        master["a"] = tuple(np.array([t[j] for t in train], dtype=np.int64) for j in range(3))
+    out = []
+    for j in range(3):
+        if dts[j] is np.int64:
+            out.append(master["a"][j])
+        else:
+            a = master["a"][j].astype(dts[j])
+            if k % 3 == 1:      # every second element of a longer buffer
+                buf = np.full(2 * a.size + 1, 7, dtype=dts[j])
+                buf[1::2] = a
+                a = buf[1::2]
+            a.setflags(write=False)
+            out.append(a)
+    return out
+
+
+def check_loader(we, folder, tab, traces, chans, templ, iwc, absent):
+    """WaveformsLoader on the folder just written: every option of load_waveforms selects rows of the saved files (in the
+    order of the files), one loader object serving all the calls; returns a description of the first disagreement"""
+    cols = [c for c in ("sample", "cluster", "peak_channel", "waveform_index", "index_within_clusters") if c in tab]
+    clu = tab["cluster"].to_numpy()
+    uniq = [int(u) for u in np.unique(clu)]
+    n = len(tab)
+    wl = we.WaveformsLoader(folder)
+
+    def rows(labels, indices):
+        m = np.ones(n, bool) if labels is None else np.isin(clu, np.asarray(labels))
+        if indices is not None:
+            m &= np.isin(iwc, np.atleast_1d(np.asarray(indices)))
+        return np.flatnonzero(m)
+
+    def call(what, labels=None, indices=None, **kw):
+        sel = rows(labels, indices)
+        a = {}
+        if labels is not None:
+            a["labels"] = labels
+        if indices is not None:
+            a["indices"] = indices
+        r = wl.load_waveforms(**a, **kw)
+        if kw.get("return_info", True):
+            if not (isinstance(r, tuple) and len(r) == 3):
+                return f"{what}: no (waveforms, table, channels) triple"
+            w, info, ch = r
+            if not np.array_equal(np.asarray(ch), chans[sel]):
+                return f"{what}: channels are not rows {sel[:5].tolist()}.. of the channels file"
+            if len(info) != sel.size or any(not np.array_equal(info[c].to_numpy(), tab[c].to_numpy()[sel]) for c in cols):
+                return f"{what}: table rows are not rows {sel[:5].tolist()}.. of the saved table"
+        else:
+            w = r
+            if isinstance(w, tuple):
+                return f"{what}: return_info=False returned a tuple"
+        if not (np.asarray(w).shape == traces[sel].shape and np.array_equal(np.asarray(w), traces[sel], equal_nan=True)):
+            return f"{what}: waveforms are not rows {sel[:5].tolist()}.. of the traces file"
+        return ""
+
+    few = uniq[::-1][:3]
+    checks = [lambda: call("load_waveforms(labels=[u], indices=[0, 2])", [uniq[0]], [0, 2])]
+    for u in uniq:
+        checks.append(lambda u=u: call(f"load_waveforms(labels=[{u}])", [u]))
+        checks.append(lambda u=u: call(f"load_waveforms(labels=[{u}], indices=[0, 2])", [u], [0, 2]))
+    checks += [
+        lambda: call("load_waveforms()"),
+        lambda: call("load_waveforms(return_info=False)", return_info=False),
+        lambda: call("load_waveforms(flatten=True)", flatten=True),
+        lambda: call(f"load_waveforms(labels=array({few + absent}))", np.array(few + absent)),
+        lambda: call(f"load_waveforms(labels=array({few + absent}), indices=array([1, 0, 10**6]))", np.array(few + absent), np.array([1, 0, 10 ** 6])),
+        lambda: call(f"load_waveforms(labels={tuple(uniq[:2])}, indices=1, return_info=False, flatten=True)", tuple(uniq[:2]), 1,
+                     return_info=False, flatten=True),
+        lambda: call("load_waveforms(indices=[0])", None, [0]),
+        lambda: call(f"load_waveforms(labels={absent})", list(absent)),
+        lambda: call("load_waveforms() again", None),
+    ]
+    for c in checks:
+        bad = c()
+        if bad:
+            return bad
+    counts = np.unique(clu, return_counts=True)[1]
+    facts = {"nw": (wl.nw, n), "ns": (wl.ns, traces.shape[2]), "nc": (wl.nc, traces.shape[1]), "nu": (wl.nu, len(uniq)),
+             "max_wf": (wl.max_wf, counts.max())}
+    for name, (got, want) in facts.items():
+        if int(got) != int(want):
+            return f"WaveformsLoader.{name} = {got}, the saved files have {want}"
+    if not (np.array_equal(np.asarray(wl.templates), templ, equal_nan=True) and np.array_equal(np.asarray(wl.channels), chans)
+            and np.array_equal(np.asarray(wl.traces), traces, equal_nan=True)):
+        return "WaveformsLoader.templates / .channels / .traces are not the saved arrays"
+    repr(wl)
+    return ""
+
+
+def one_extract(ctx, binf, d, train, sc, idx, master=None):
     """one real call; returns the trace record"""
     import pandas as pd
     import spikeglx
@@ -95,18 +258,16 @@ def one_extract(ctx, binf, d, train, sc, idx):
     out = Path(ctx.scratch) / f"wfout_{idx}"
     shutil.rmtree(out, ignore_errors=True)
     out.mkdir(parents=True)
+    if sc.get("left"):
+        plant_leftovers(out, sc["left"], np.random.default_rng(1000 + idx))
     trdir = Path(os.environ["IBL_NEUROPIXEL_VERIF_TRACE"])
     for f in trdir.glob("*.ndjson"):
         f.unlink()
-    # the integer types spike sorters hand over (kilosort writes uint64 spike times, uint32 clusters); the result must not
-    # depend on them (the runs of a group differ in it as they differ in chunk size and worker count)
-    dts = [(np.int64, np.int64, np.int64), (np.uint64, np.uint32, np.int64), (np.int32, np.int32, np.int32),
-           (np.uint32, np.int64, np.uint16), (np.uint64, np.int64, np.int64)][idx % 5]
-    ss = np.array([t[0] for t in train], dtype=dts[0])
-    sc_ = np.array([t[1] for t in train], dtype=dts[1])
-    sp = np.array([t[2] for t in train], dtype=dts[2])
+    ss, sc_, sp = arguments(train, sc, idx, {} if master is None else master)
     ns = d.shape[0]
-    rec = {"ns": ns, "maxwf": sc["maxwf"], "chunk": sc["chunk"], "njobs": sc["njobs"], "train": [list(t) for t in train],
+    # keywords left out take the documented defaults (max_wf 256, chunks of 3000 samples, half of the CPUs, a fresh generator)
+    rec = {"kind": "cbin", "a": {}, "ns": ns, "maxwf": 256 if sc["maxwf"] is None else sc["maxwf"],
+           "chunk": 3000 if sc["chunk"] is None else sc["chunk"], "njobs": sc["njobs"], "train": [list(t) for t in train],
            "table": [], "jobs": [], "content": [], "exc": "",
            "obs": {"rows_ok": True, "table_ok": True, "order_ok": True, "chan_ok": True, "templ_ok": True, "loader_ok": True},
            "detail": {}, "hash": None}
@@ -124,12 +285,24 @@ def one_extract(ctx, binf, d, train, sc, idx):
         srx.close()
         src = (cdir / binf.name).with_suffix(".cbin")
         before = sorted(p.name for p in cdir.iterdir())
+    kw = {"max_wf": sc["maxwf"], "chunksize_samples": sc["chunk"], "n_jobs": sc["njobs"]}
+    kw = {a: b for a, b in kw.items() if b is not None}
+    if not sc.get("noseed"):
+        kw["seed"] = sc["seed"]
+    if sc.get("cbin") == "scratch":
+        kw["scratch_dir"] = Path(ctx.scratch) / f"wfscr_{idx}"
+    if sc.get("explicit"):
+        # the geometry handed over instead of read from the file, and the recording named by a string
+        srh = spikeglx.Reader(binf)
+        kw["h"] = srh.geometry
+        srh.close()
+        src = str(src)
     try:
-        we.extract_wfs_cbin(src, out, ss, sc_, sp, max_wf=sc["maxwf"], chunksize_samples=sc["chunk"], n_jobs=sc["njobs"],
-                            preprocess_steps=[], seed=sc["seed"], scratch_dir=(Path(ctx.scratch) / f"wfscr_{idx}") if sc.get("cbin") == "scratch" else None)
+        we.extract_wfs_cbin(src, out, ss, sc_, sp, preprocess_steps=[], **kw)
     except Exception as e:  # noqa
         rec["exc"] = f"{type(e).__name__}: {e}"[:150].replace('"', "'")
         return rec
+    src = Path(src)
     if before is not None:
         after = sorted(p.name for p in src.parent.iterdir())
         if after != before:
@@ -143,10 +316,19 @@ def one_extract(ctx, binf, d, train, sc, idx):
     rec["jobs"] = [{"c": e["i_chunk"], "rows": e["rows"], "samples": e["samples"], "local": e["local"],
                     "snip_first": e["snip_first"], "snip_len": e["snip_len"]} for e in evs]
     # ---- files
-    tab = pd.read_parquet(out / "waveforms.table.pqt").reset_index(drop=True)   # row position = row of the traces file
-    traces = np.load(out / "waveforms.traces.npy")
-    chans = np.load(out / "waveforms.channels.npz")["channels"]
-    templ = np.load(out / "waveforms.templates.npy")
+    try:
+        tab = pd.read_parquet(out / "waveforms.table.pqt").reset_index(drop=True)   # row position = row of the traces file
+        traces = np.load(out / "waveforms.traces.npy")
+        chans = np.load(out / "waveforms.channels.npz")["channels"]
+        templ = np.load(out / "waveforms.templates.npy")
+        if traces.ndim != 3 or chans.ndim != 2 or templ.ndim != 3 or not {"sample", "cluster", "peak_channel", "waveform_index"} <= set(tab):
+            raise ValueError(f"shapes {traces.shape} {chans.shape} {templ.shape}, columns {list(tab)}")
+    except Exception as e:  # noqa
+        # the folder does not hold a readable set of the four files (e.g. what an earlier run left is still there)
+        rec["obs"]["rows_ok"] = False
+        rec["detail"]["files"] = f"{type(e).__name__}: {e}"[:200]
+        shutil.rmtree(out, ignore_errors=True)
+        return rec
     key = {(t[0], t[1]): i + 1 for i, t in enumerate(train)}
     rows = []
     for r in tab.itertuples():
@@ -194,21 +376,14 @@ def one_extract(ctx, binf, d, train, sc, idx):
     # content indexed by waveform_index (row r <-> widx r when order_ok)
     rec["content"] = content
     # loader returns what was saved
+    absent = [int(u) for u in sorted({t[1] for t in train} - set(tab["cluster"].tolist()))] + [int(tab["cluster"].max()) + 17]
     try:
-        wl = we.WaveformsLoader(out)
-        for cl in list(tab["cluster"].unique())[:6]:
-            w, info, ch = wl.load_waveforms(labels=[cl])
-            sel = np.flatnonzero(tab["cluster"].to_numpy() == cl)
-            if not (np.array_equal(w, traces[sel], equal_nan=True) and np.array_equal(ch, chans[sel])
-                    and np.array_equal(info["sample"].to_numpy(), tab["sample"].to_numpy()[sel])):
-                rec["obs"]["loader_ok"] = False
-            w2, info2, ch2 = wl.load_waveforms(labels=[cl], indices=[0, 2])
-            sel2 = sel[np.isin(exp_iwc[sel], [0, 2])]
-            if not (np.array_equal(w2, traces[sel2], equal_nan=True) and np.array_equal(ch2, chans[sel2])):
-                rec["obs"]["loader_ok"] = False
+        bad = check_loader(we, out if idx % 2 else str(out), tab, traces, chans, templ, exp_iwc, absent)
     except Exception as e:  # noqa
+        bad = f"{type(e).__name__}: {e}"[:200]
+    if bad:
         rec["obs"]["loader_ok"] = False
-        rec["detail"]["loader_exc"] = f"{type(e).__name__}: {e}"[:200]
+        rec["detail"]["loader"] = bad
     sr.close()
     rec["hash"] = [sha(out / "waveforms.traces.npy"), sha(out / "waveforms.channels.npz"), sha(out / "waveforms.templates.npy"),
                    hashlib.sha1(tab.to_csv().encode()).hexdigest()]
